@@ -63,8 +63,18 @@ def functions():
 # ------------------------------------------------------------------------------------------------
 # descriptions:  signature = tuple of members (name, flow 'i'/'o', kind, payload, dims)
 #   kind 'p': payload = (shape key, init)      kind 's': payload = signature description
+#   kind 'f': payload = signature description, the member is declared with the FLIPPED signature: In(sub.flip()) / Out(sub.flip())
+
+_SHAPES = []
+
 
 def _shapes():
+    if not _SHAPES:
+        _SHAPES.append(_make_shapes())
+    return _SHAPES[0]
+
+
+def _make_shapes():
     from amaranth.hdl import unsigned, signed
     from amaranth.lib import data, enum
 
@@ -108,6 +118,13 @@ def trees(depth):
         out.append((("a", "o", "s", (("b", "o", "s", (leaf,), ()),), ()), ("b", "o", "s", (leaf,), ())))
         out.append((("a", "i", "s", (("b", "i", "s", (leaf_i,), ()),), ()), ("b", "o", "s", (leaf_i,), ())))
         out.append((("s", "o", "s", (("s", "i", "s", (("s", "o", "p", ("s3", -2), (2,)),), ()),), ()),))
+    # members declared with a flipped sub-signature, in every flow, plain, in arrays and nested
+    sub = level0[6 if len(level0) > 6 else -1]
+    for f in ("i", "o"):
+        out.append((("s", f, "f", sub, ()),))
+        out.append((("s", f, "f", sub, (2,)), ("t", "o", "s", sub, ())))
+        out.append((("a", f, "s", (("b", "i", "f", sub, ()), ("c", "o", "p", ("u2", 1), ())), ()),))
+        out.append((("a", f, "f", (("b", "o", "f", sub, (2,)),), ()),))
     return out
 
 
@@ -135,7 +152,7 @@ def _gen_tree(g, depth=0):
         flow = g.pick("io")
         dims = g.pick([(), (), (), (2,), (1,), (2, 2), (1, 3)]) if depth < 2 else g.pick([(), (), (2,)])
         if depth < 2 and g.next(5) < 2:
-            out.append((name, flow, "s", _gen_tree(g, depth + 1), dims))
+            out.append((name, flow, "f" if g.next(3) == 0 else "s", _gen_tree(g, depth + 1), dims))
         else:
             pf, pl, _pd = PORTS[g.next(len(PORTS))]
             out.append((name, flow, "p", pl, dims))
@@ -160,6 +177,8 @@ def build_sig(desc):
         if kind == "p":
             shp, init = payload
             m = ctor(shapes[shp], init=init) if init is not None else ctor(shapes[shp])
+        elif kind == "f":
+            m = ctor(build_sig(payload).flip())
         else:
             m = ctor(build_sig(payload))
         if dims:
@@ -178,8 +197,8 @@ def ref_leaves(desc, flipped=False, prefix=()):
             if kind == "p":
                 out.append((path, eff, payload[0], payload[1]))
             else:
-                # a nested signature member with effective flow In is seen flipped
-                out += ref_leaves(payload, flipped=(eff == "i"), prefix=path)
+                # a nested signature member with effective flow In is seen flipped; one declared with sub.flip() once more
+                out += ref_leaves(payload, flipped=(eff == "i") != (kind == "f"), prefix=path)
     return out
 
 
@@ -194,7 +213,7 @@ def _leaf_signals(sig, obj):
 
 
 def has_sig_dims(desc):
-    return any(kind == "s" and (dims or has_sig_dims(payload)) for (_n, _f, kind, payload, dims) in desc)
+    return any(kind in ("s", "f") and (dims or has_sig_dims(payload)) for (_n, _f, kind, payload, dims) in desc)
 
 
 def tree_name(k, desc):
@@ -219,6 +238,15 @@ def check_structure(k, desc):
     fl = sig.flip()
     obs.append(_closed(f"{name}::flip-twice-is-original", fl.flip() == sig and sig.flip().flip().members == sig.members, fi))
     obs.append(_closed(f"{name}::flip-is-not-original-unless-empty", (fl != sig) or not ref_leaves(desc), fi))
+    for (mname, mflow, mkind, mpayload, mdims) in desc:
+        if mkind in ("s", "f"):
+            subsig = build_sig(mpayload)
+            want_sig = subsig.flip() if (mflow == "i") != (mkind == "f") else subsig
+            got_sig = sig.members[mname].signature
+            obs.append(_closed(f"{name}::member[{mname}]::signature-is-the-sub-signature-as-seen-from-outside",
+                               got_sig == want_sig and got_sig.flip() == want_sig.flip() and got_sig.flip().flip() == got_sig
+                               and type(got_sig.flip().flip()) is type(got_sig),
+                               {**fi, "member": mname, "member.signature": repr(got_sig), "expected": repr(want_sig)}))
     obj = sig.create(path=("obj",))
     obs.append(_closed(f"{name}::created-object-complies", sig.is_compliant(obj), fi))
     fobj = flipped(obj)
